@@ -294,17 +294,20 @@ impl Writer for ProtobufWriter<'_> {
         let tag = self.state.tag_counter + 1;
 
         // This way is clearer, that the first branch is for unsigned and the second branch for
-        // signed types, while the inner branches determine 32- or 64-bitness
+        // signed types, while the inner branches determine 32- or 64-bitness. MIN and MAX bound
+        // the extension root only: the value of an extensible INTEGER can be anything its 64-bit
+        // type holds (declared as uint64 / sint64 in the generated schema)
         #[allow(clippy::collapsible_if)]
         if const_unwrap_or!(C::MIN, 0) >= 0 {
-            if const_unwrap_or!(C::MAX, i64::MAX) <= i64::from(u32::MAX) {
+            if !C::EXTENSIBLE && const_unwrap_or!(C::MAX, i64::MAX) <= i64::from(u32::MAX) {
                 let value = value.to_i64() as u32; // safe cast because of check above
                 self.buffer.write_tagged_uint32(tag, value)?;
             } else {
                 let value = value.to_i64() as u64; // safe cast because of first check
                 self.buffer.write_tagged_uint64(tag, value)?;
             }
-        } else if const_unwrap_or!(C::MIN, i64::MIN) >= i64::from(i32::MIN)
+        } else if !C::EXTENSIBLE
+            && const_unwrap_or!(C::MIN, i64::MIN) >= i64::from(i32::MIN)
             && const_unwrap_or!(C::MAX, i64::MAX) <= i64::from(i32::MAX)
         {
             let value = value.to_i64() as i32; // safe cast because of check above
